@@ -56,7 +56,9 @@ class TranslateNode(Node, TranslatableTag):
     translations_var = "translations"
     message_count_var = "count"
     message_context_var = "context"
-    re_vars = re.compile(r"(?<!%)%\(([\w-]+)\)s")
+    # A placeholder is a `%(name)s` preceded by an even number of percent signs. Literal
+    # percent signs in message text are doubled, so `%{{ you }}` is `%%%(you)s`.
+    re_vars = re.compile(r"(?<!%)(?:%%)*%\(([\w-]+)\)s")
 
     def __init__(
         self,
